@@ -112,7 +112,7 @@ class C10(Prop):
             ntasks = t.weighted([(3, 1), (3, 2), (2, 3), (1, 4)])
             plan["tasks"] = [gen_program(t) for _ in range(ntasks)]
         else:
-            plan["chunk_size"] = t.choice([None, None, 1, 2, 3, 7, 4096])
+            plan["chunk_size"] = t.choice([None, None, 1, 2, 3, 7, 4096, -1])      # -1: "read everything", as for file objects
             plan["short"] = t.draw(3) != 0
             # a de-chunked "Transfer-Encoding: chunked" upload or an HTTP/2 front end: the server hands over a body without Content-Length
             plan["content_length"] = t.weighted([(3, "exact"), (1, "absent"), (1, "chunked")])
@@ -498,7 +498,7 @@ class C10(Prop):
                     if arg != 0:
                         for c in g:
                             chunks.append(c)
-                            if plan["chunk_size"] is not None and len(c) > plan["chunk_size"] and "body" not in req.__dict__:
+                            if plan["chunk_size"] is not None and plan["chunk_size"] > 0 and len(c) > plan["chunk_size"] and "body" not in req.__dict__:
                                 ctx.violate("C10|wsgi|stream|chunk-larger-than-chunk_size", "%d > %d" % (len(c), plan["chunk_size"]))
                             if arg is not None and len(chunks) >= arg:
                                 break
